@@ -2801,6 +2801,43 @@ def r_attach(E):
                 f"container is re-attached / detached without being removed from its ancestors' children", rel,
                 fn.lineno, "ExplainableObject.set_modeling_obj_container"))
             break
+    # the list of links hands whatever container it is given — a container, or None when it leaves the model — on to every
+    # wrapper it holds, on every normal path: a path that returns before the loop leaves the wrappers registered on their
+    # objects as holders of a list that is gone (a simulated list that was reset, a list that was replaced)
+    try:
+        rel_l, fl = pm.find_function("abstract_modeling_classes/list_linked_to_modeling_obj.py",
+                                     "ListLinkedToModelingObj.set_modeling_obj_container")
+    except AnalysisError:
+        fl = None
+    if fl is not None:
+        res.instances += 1
+        from ..astutil import nodes_through_helpers as _nth_at
+        finder_l = pm.helper_finder("ListLinkedToModelingObj")
+
+        def hands_on(loop):
+            # a call <element>.set_modeling_obj_container(self.modeling_obj_container, …) in the loop, possibly in a helper
+            return any(isinstance(c_, ast.Call) and isinstance(c_.func, ast.Attribute) and c_.func.attr == "set_modeling_obj_container"
+                       and c_.args and norm(c_.args[0]) == "self.modeling_obj_container"
+                       for c_ in _nth_at(loop, finder_l, depth=2))
+        loops_l = [n_ for n_ in ast.walk(fl) if isinstance(n_, ast.For) and norm(n_.iter) == "self" and hands_on(n_)]
+        if not loops_l:
+            res.undecided.append("ListLinkedToModelingObj.set_modeling_obj_container: the loop that hands the container on "
+                                 "to the wrappers of the list was not recognised")
+        else:
+            L0 = loops_l[0]
+            for path in enumerate_paths(fl, lambda n_: n_ is L0):
+                if path.end == "raise":
+                    continue
+                if not any(st is L0 or any(y is L0 for y in ast.walk(st)) for st in path.stmts):
+                    cond = " and ".join(("" if pol else "not ") + "(" + norm(t)[:60] + ")" for t, pol in path.conds)
+                    res.findings.append(Finding(
+                        "R-ATTACH", "ListLinkedToModelingObj.set_modeling_obj_container path that skips the elements",
+                        f"ListLinkedToModelingObj.set_modeling_obj_container has a path (`{cond[:150]}`) that ends without "
+                        f"handing the container on to the wrappers of the list: when the list leaves the model (its container "
+                        f"becomes None — a simulated list put back, a replaced list) its wrappers stay registered on the objects "
+                        f"they wrap, which keep reporting the old container, its usage patterns and its system", rel_l,
+                        fl.lineno, "ListLinkedToModelingObj.set_modeling_obj_container"))
+                    break
     res.floor = 3
     return res
 
